@@ -184,7 +184,9 @@ def denormalize_pixels_range(pixels, out_dtype):
             "is unknown".format(out_dtype)
         )
 
-    return (pixels * max_range).astype(out_dtype)
+    # round to the nearest level: a plain cast truncates, and x / 255 * 255
+    # can land just below x
+    return np.rint(pixels * max_range).astype(out_dtype)
 
 
 def channels_to_back(pixels):
